@@ -439,7 +439,9 @@ def filter_citations(citations: List[CitationBase]) -> List[CitationBase]:
 
         filtered_citations.append(citation)
 
-    return filtered_citations
+    # Overlaps are detected in full-span order, but the result is documented
+    # to be ordered by citation span
+    return sorted(filtered_citations, key=lambda citation: citation.span())
 
 
 joke_cite: List[CitationBase] = [
